@@ -14,7 +14,7 @@ theorem step_pos (x t : Rat) (hx : 0 < x) : 0 < (if x - t ≤ 0 then 1 / 2 * (x 
   · exact not_le.mp h
 
 /-- a pass of the Halley loop keeps `x` positive (`x ← x/2` when the step would leave the domain) -/
-theorem halleyStep_pos (T : Transc) (px p a gln x : Rat) (hx : 0 < x) : 0 < (halleyStep T px p a gln x).1 := by
+theorem halleyStep_pos (px p a t x : Rat) (hx : 0 < x) : 0 < (halleyStep px p a t x).1 := by
   unfold halleyStep
   exact step_pos _ _ hx
 
@@ -37,8 +37,9 @@ theorem halley_nonneg (T : Transc) (P : Rat → Rat → Except Err Rat) (p a gln
       | ok px =>
         rw [hP] at h
         simp only at h
-        have hpos := halleyStep_pos T px p a gln x hx'
-        split_ifs at h with hb
+        have hpos := halleyStep_pos px p a (halleyDensity T a gln x) x hx'
+        split_ifs at h with ht hb
+        · cases h; exact le_of_lt hx'
         · cases h; exact le_of_lt hpos
         · exact ih _ h (Or.inl hpos)
 
